@@ -756,3 +756,34 @@ pub fn add_trailing_blanks(text: &str, rng: &mut Rng) -> String {
     }
     out
 }
+
+
+/// A well-formed variant of `d` with exactly the same length in bytes and other attributes: a
+/// blank after a comma becomes a line break (or the other way round), or an escape-hatch comment
+/// is defused (`@typstyle off` -> `@typstyle 0ff`). None if no such place exists.
+pub fn same_length_variant(d: &str, rng: &mut crate::rng::Rng) -> Option<String> {
+    let mut cands: Vec<(usize, &str, &str)> = Vec::new();
+    for (i, _) in d.match_indices(", ") {
+        cands.push((i, ", ", ",\n"));
+    }
+    for (i, _) in d.match_indices(",\n") {
+        cands.push((i, ",\n", ", "));
+    }
+    for (i, _) in d.match_indices("@typstyle off") {
+        cands.push((i, "@typstyle off", "@typstyle 0ff"));
+    }
+    if cands.is_empty() {
+        return None;
+    }
+    for _ in 0..4 {
+        let (i, from, to) = *rng.pick(&cands);
+        let mut v = String::with_capacity(d.len());
+        v.push_str(&d[..i]);
+        v.push_str(to);
+        v.push_str(&d[i + from.len()..]);
+        if v.len() == d.len() && v != d && !typst_syntax::parse(&v).erroneous() {
+            return Some(v);
+        }
+    }
+    None
+}
